@@ -21,12 +21,13 @@ Hypotheses, all explicit:
   bodies (the twin fails with an internal error otherwise).
 * `Refine.FreshExec exec`: the execution handed to `World.init` has the thread table of the start of an iteration
   (the main thread alone, active), as `Exec.new` and `Exec.step` produce it.  The path is arbitrary.
-* `Refine.saneRun fuel w0 = true` (computable): at every step of the run the ACTIVE thread EXISTS (has a control
-  record).  A path to replay can name any thread index in a `Schedule` entry; real loom would index its thread vector
-  with it and panic, the twin's `World.ctlOf` returns the default record, i.e. a phantom thread that runs the main
-  body again.  The hypothesis cannot be dropped: `Refine.phantom_thread` below is a run that completes without a
-  panic and logs the result of one operation twice.  Entries pushed by the twin's own `schedule` always name an
-  existing thread (`C01Choice.choice_lt`).
+* NO LONGER a hypothesis: `Refine.saneRun fuel w0 = true` (computable): at every step of the run the ACTIVE thread
+  EXISTS (has a control record).  A path to replay can name any thread index in a `Schedule` entry; real loom indexes
+  its thread vector with it and panics, and so does the twin since `Exec.schedule` checks the index (`.internal 31`).
+  Before that check the twin's `World.ctlOf` returned the default record, i.e. a phantom thread that ran the main
+  body again (old counterexample `Refine.phantom_thread`: a run that completed without a panic and logged the
+  result of one operation twice); the same execution now panics: `Refine.phantom_thread_panics`.  The property is
+  now a theorem for every run from a fresh execution: `Refine.run_sane`.
 
 Headlines: `Refine.step_data`, `Refine.enabled_data` (the data-only projection of the reference),
 `Refine.R` (the abstraction relation, `Proofs/RefineRel.lean`), `Refine.step_simulation`,
@@ -101,12 +102,22 @@ reference state — whose trace of recorded `(thread, pc, result)` triples is ex
 in order, and whose final state is related to the final world. -/
 theorem run_is_reference_execution {prog : Prog} {exec : Exec} {w0 w : World} {fuel : Nat}
     (hwf : WF prog) (hfresh : FreshExec exec) (hinit : World.init prog exec = .ok w0)
-    (hrun : World.runLoop fuel w0 = (w, none)) (hsane : saneRun fuel w0 = true) :
+    (hrun : World.runLoop fuel w0 = (w, none)) :
     ∃ s, SCData.Run prog (data (SC.init prog)) (w.events.reverse.map triple) s ∧ R w s := by
   obtain ⟨hR, hp, hev⟩ := init_R hwf hfresh hinit
   obtain ⟨s, h1, h2, _⟩ := runLoop_sim prog (data (SC.init prog)) hwf fuel w0 w _ hp hR
-    (by rw [hev]; exact SCData.Run.nil _) hsane hrun
+    (init_inRange hfresh hinit) (by rw [hev]; exact SCData.Run.nil _) hrun
   exact ⟨s, h1, h2⟩
+
+/-- **Every run from a fresh execution is sane** (the former hypothesis of `run_is_reference_execution`): at
+every step taken — whether the run completes, panics or runs out of fuel — the active thread has a control record.
+(`Exec.schedule` refuses to activate a thread that is not in the thread table, and the thread table and the
+control table have the same length in every world related to a reference state.) -/
+theorem run_sane {prog : Prog} {exec : Exec} {w0 : World} (fuel : Nat)
+    (hwf : WF prog) (hfresh : FreshExec exec) (hinit : World.init prog exec = .ok w0) :
+    saneRun fuel w0 = true := by
+  obtain ⟨hR, hp, _⟩ := init_R hwf hfresh hinit
+  exact saneRun_of_R prog hwf fuel w0 _ hp hR (init_inRange hfresh hinit)
 
 /-- … and hence an execution of `Spec/SC.lean` itself (`SCExec`: every step is `SC.step` of a thread that is
 `SC.enabled`), with clocks: there is a reference execution from `SC.init prog` that either ends in a state whose
@@ -114,12 +125,12 @@ data is related to the final world of the twin (and the twin's event log is the 
 run), or — a prefix of the run — ends in a data-race verdict. -/
 theorem run_is_SC_execution {prog : Prog} {exec : Exec} {w0 w : World} {fuel : Nat}
     (hwf : WF prog) (hfresh : FreshExec exec) (hinit : World.init prog exec = .ok w0)
-    (hrun : World.runLoop fuel w0 = (w, none)) (hsane : saneRun fuel w0 = true) :
+    (hrun : World.runLoop fuel w0 = (w, none)) :
     ∃ s, SCExec prog (SC.init prog) s ∧
       ((s.verdict = none ∧ R w (data s) ∧
           SCData.Run prog (data (SC.init prog)) (w.events.reverse.map triple) (data s)) ∨
         ∃ k, s.verdict = some (.race k)) := by
-  obtain ⟨d, hr, hR⟩ := run_is_reference_execution hwf hfresh hinit hrun hsane
+  obtain ⟨d, hr, hR⟩ := run_is_reference_execution hwf hfresh hinit hrun
   obtain ⟨s, hex, hc⟩ := Run.lift hwf.fragProg hr
   refine ⟨s, hex, ?_⟩
   rcases hc with ⟨hfs, hd⟩ | hrace
@@ -129,8 +140,7 @@ theorem run_is_SC_execution {prog : Prog} {exec : Exec} {w0 w : World} {fuel : N
 
 /-- the same for `runIter`: the events it reports are the trace of a reference run -/
 theorem runIter_is_reference_execution {prog : Prog} {exec : Exec} {fuel : Nat}
-    (hwf : WF prog) (hfresh : FreshExec exec) (hterm : (runIter prog exec fuel).term = none)
-    (hsane : ∀ w0, World.init prog exec = .ok w0 → saneRun fuel w0 = true) :
+    (hwf : WF prog) (hfresh : FreshExec exec) (hterm : (runIter prog exec fuel).term = none) :
     ∃ s, SCData.Run prog (data (SC.init prog)) ((runIter prog exec fuel).events.map triple) s := by
   unfold runIter at hterm ⊢
   cases hi : World.init prog exec with
@@ -144,7 +154,7 @@ theorem runIter_is_reference_execution {prog : Prog} {exec : Exec} {fuel : Nat}
       cases r with
       | some e => cases hterm
       | none =>
-        obtain ⟨s, h1, _⟩ := run_is_reference_execution hwf hfresh hi hr (hsane w0 hi)
+        obtain ⟨s, h1, _⟩ := run_is_reference_execution hwf hfresh hi hr
         simp only
         refine ⟨s, ?_⟩
         split <;> exact h1
@@ -178,18 +188,15 @@ def exec0 : Exec := Check.initExec prog.cfg
 
 example : FreshExec exec0 := freshExec_new _ _ _ _
 
-/-- the hypotheses of `runIter_is_reference_execution` hold for it: the run completes and is sane -/
+/-- the hypotheses of `runIter_is_reference_execution` hold for it: the run completes (and is sane: computed
+here, proved in general by `run_sane`) -/
 theorem run0 : (runIter prog exec0).term = none ∧
     (match World.init prog exec0 with | .ok w0 => saneRun 200000 w0 | .error _ => false) = true := by
   decide +kernel
 
 /-- … so its events are the trace of a reference run (by the theorem) -/
-example : ∃ s, SCData.Run prog (data (SC.init prog)) ((runIter prog exec0).events.map triple) s := by
-  refine runIter_is_reference_execution (by decide +kernel) (freshExec_new _ _ _ _) run0.1 ?_
-  intro w0 h0
-  have := run0.2
-  rw [h0] at this
-  exact this
+example : ∃ s, SCData.Run prog (data (SC.init prog)) ((runIter prog exec0).events.map triple) s :=
+  runIter_is_reference_execution (by decide +kernel) (freshExec_new _ _ _ _) run0.1
 
 /-- the trace in question: thread 1 blocks on the mutex, reads the value written by the main thread, overwrites
 it; the main thread joins it and reads 2 -/
@@ -209,16 +216,12 @@ theorem run1 : (runIter prog exec1).term = none ∧
 example : (runIter prog exec1).events.map triple ≠ (runIter prog exec0).events.map triple := by
   decide +kernel
 
-example : ∃ s, SCData.Run prog (data (SC.init prog)) ((runIter prog exec1).events.map triple) s := by
-  refine runIter_is_reference_execution (by decide +kernel) run1.2.2 run1.1 ?_
-  intro w0 h0
-  have := run1.2.1
-  rw [h0] at this
-  exact this
+example : ∃ s, SCData.Run prog (data (SC.init prog)) ((runIter prog exec1).events.map triple) s :=
+  runIter_is_reference_execution (by decide +kernel) run1.2.2 run1.1
 
 end Example
 
-/-! ### the sanity hypothesis cannot be dropped -/
+/-! ### a path that names a thread that does not exist -/
 
 namespace Phantom
 
@@ -235,16 +238,18 @@ def exec : Exec :=
 
 end Phantom
 
-/-- **The twin follows a path that activates a thread that does not exist.**  `Phantom.prog` is well-formed and
-`Phantom.exec` has a fresh thread table, the run completes without a panic — but the phantom thread 2 runs the
-main body's `spawn 1` a second time (with the default control record) and becomes a second thread of body 1: the
-event `(1, 0, unit)` is logged twice, which no run of the reference does (a thread's `rets` get one entry per
-pc).  `saneRun` is false for this run. -/
-theorem phantom_thread :
-    WF Phantom.prog ∧ FreshExec Phantom.exec ∧ (runIter Phantom.prog Phantom.exec).term = none ∧
-    (runIter Phantom.prog Phantom.exec).events.map triple =
-      [(0, 0, .unit), (1, 0, .unit), (0, 1, .unit), (0, 2, .unit), (1, 0, .unit)] ∧
-    (match World.init Phantom.prog Phantom.exec with | .ok w0 => saneRun 200000 w0 | .error _ => true) = false := by
+/-- **The twin refuses a path that activates a thread that does not exist** (as real loom does: "index out of
+bounds").  `Phantom.prog` is well-formed and `Phantom.exec` has a fresh thread table; its path names thread 2 at
+the first branch point, where only threads 0 and 1 exist: the run stops there with `.internal 31`, after the
+single event `(0, 0, unit)` (the `spawn`); the run is sane up to that point.  (Before `Exec.schedule` checked the
+index the run COMPLETED: the phantom thread 2 ran the main body's `spawn 1` a second time and the event
+`(1, 0, unit)` was logged twice, which no run of the reference does — the old counterexample
+`Refine.phantom_thread` to dropping the hypothesis `saneRun`.) -/
+theorem phantom_thread_panics :
+    WF Phantom.prog ∧ FreshExec Phantom.exec ∧
+    (runIter Phantom.prog Phantom.exec).term = some (.internal 31) ∧
+    (runIter Phantom.prog Phantom.exec).events.map triple = [(0, 0, .unit)] ∧
+    (match World.init Phantom.prog Phantom.exec with | .ok w0 => saneRun 200000 w0 | .error _ => false) = true := by
   refine ⟨by decide +kernel, ⟨rfl, rfl⟩, by decide +kernel, by decide +kernel, by decide +kernel⟩
 
 end Refine
